@@ -4,7 +4,43 @@
 -/
 import Geo.Proto
 import Geo.LeviCivita
+import Geo.JoinMeet
 open Geo
+
+def absLeQ (a b : Q) : Bool := decide (Gauss.normSq a ≤ Gauss.normSq b)
+
+def kindName : Kind → String
+  | .point => "P" | .line => "L" | .plane => "E"
+
+/-- `<id>|<P|L|E>|<cov 0/1>|<nfree>|<tensor>` -/
+def parseObj (s : String) : Option (GObj Q) :=
+  match s.splitOn "|" with
+  | [i, k, c, nf, t] => do
+    let id ← i.toNat?
+    let kind ← (match k with | "P" => some Kind.point | "L" => some Kind.line | "E" => some Kind.plane | _ => none)
+    let nf ← nf.toNat?
+    let t ← parseTens t
+    some ⟨id, kind, c = "1", nf, t⟩
+  | _ => none
+
+def showObj (o : GObj Q) : String :=
+  s!"{kindName o.kind} {if o.cov then 1 else 0} {o.nfree} {showTens o.t}"
+
+def showJMErr : JMErr → String
+  | .linearDependence sh m => s!"err LinearDependence {showBools sh m}"
+  | .notCoplanar => "err NotCoplanar"
+  | .tensorComputation => "err TensorComputation"
+  | .valueError => "err ValueError"
+  | .geometryException => "err GeometryException"
+  | .runtimeError => "err RuntimeError"
+
+def showObjRes : Except JMErr (GObj Q) → String
+  | .ok o => "ok " ++ showObj o
+  | .error e => showJMErr e
+
+def showMaskRes : Except JMErr (List Nat × List Bool) → String
+  | .ok m => "ok " ++ showBools m.1 m.2
+  | .error e => showJMErr e
 
 /-- `<id>|<cov>|<con>|<tensor>` -/
 def parseNode (s : String) : Option (Node × Tens Q) :=
@@ -55,6 +91,24 @@ def opDiagram (args : List String) : String := Id.run do
 def dispatch (op : String) (args : List String) : String :=
   match op, args with
   | "diagram", _ => opDiagram args
+  | "join", _ => match args.mapM parseObj with
+    | some os => showObjRes (join absLeQ os)
+    | none => "bad-op"
+  | "meet", _ => match args.mapM parseObj with
+    | some os => showObjRes (meet absLeQ os)
+    | none => "bad-op"
+  | "contains", [a, b] => match parseObj a, parseObj b with
+    | some a, some b => showMaskRes (contains a b)
+    | _, _ => "bad-op"
+  | "coplanar", [a, b] => match parseObj a, parseObj b with
+    | some a, some b => showMaskRes (isCoplanar a b)
+    | _, _ => "bad-op"
+  | "covt", [a] => match parseObj a with
+    | some a => showObjRes (covariantTensor a)
+    | _ => "bad-op"
+  | "contrat", [a] => match parseObj a with
+    | some a => showObjRes (contravariantTensor a)
+    | _ => "bad-op"
   | "eps", [n] => match n.toNat? with
     | some n => s!"ok {showTens (epsTens n : Tens Q)}"
     | none => "bad-op"
